@@ -355,12 +355,45 @@ func ruleVFNoIndex(c *eng.Ctx) {
 			}
 			n++
 			arg := cs.Call.Args[i]
-			isNone := false
-			if call, ok := ast.Unparen(arg).(*ast.CallExpr); ok && strings.Contains(eng.CalleeName(info, call), "immutable.None") {
-				isNone = true
+			noneExpr := func(e ast.Expr) bool {
+				if call, ok := ast.Unparen(e).(*ast.CallExpr); ok && strings.Contains(eng.CalleeName(info, call), "immutable.None") {
+					return true
+				}
+				if cl, ok := ast.Unparen(e).(*ast.CompositeLit); ok && len(cl.Elts) == 0 {
+					return true
+				}
+				return false
 			}
-			if cl, ok := ast.Unparen(arg).(*ast.CompositeLit); ok && len(cl.Elts) == 0 {
-				isNone = true
+			isNone := noneExpr(arg)
+			if o := eng.ObjOf(info, arg); !isNone && o != nil {
+				// a local that is only ever assigned None values (or declared without a value)
+				all, cnt := true, 0
+				ast.Inspect(fi.Decl.Body, func(x ast.Node) bool {
+					switch d := x.(type) {
+					case *ast.AssignStmt:
+						for i, l := range d.Lhs {
+							if eng.ObjOf(info, l) == o {
+								cnt++
+								if len(d.Rhs) != len(d.Lhs) || !noneExpr(d.Rhs[i]) {
+									all = false
+								}
+							}
+						}
+					case *ast.ValueSpec:
+						for i, nm := range d.Names {
+							if info.Defs[nm] == o {
+								cnt++
+								if i < len(d.Values) && !noneExpr(d.Values[i]) {
+									all = false
+								}
+							}
+						}
+					}
+					return true
+				})
+				if _, isParam := o.(*types.Var); isParam && cnt > 0 && all {
+					isNone = true
+				}
 			}
 			c.Check(isNone, rule, "VersionedFetcher.Init:inner-Init:index=none", arg.Pos(), "the transient store is read without a secondary index",
 				"the fetcher that reads the rebuilt document from the transient store is given the index "+eng.ExprStr(arg)+": that store has no index entries, so a time-travel query filtering on the indexed field returns nothing")
